@@ -21,7 +21,15 @@
               (bounded by the global limit); an accepted fresh global-count reply ends the
               unavailable state and its limit (raised to the burst reserve, bounded by the
               granted maximum) becomes the size;
-   (nopanic)  neither the reconcile step nor the request path panics. *)
+   (nopanic)  neither the reconcile step nor the request path panics.
+
+   Replies reach the limiter through the counter manager as well (EWorker rounds against the limiter
+   server); (failing) and (recovery) apply to them in the same way.  SILENCE: when, at a tick of the
+   counter's watchdog (EWatchdog), more than 4 s have passed since the last reply that was delivered
+   for the schema (an omitted result is not a reply) and since the schema or a quota last changed,
+   an available global-count limiter must fall back exactly as on an error reply.  The time of the
+   last reply is computed here from the events and from what the limiter server saw (o_sent), never
+   from the implementation's own bookkeeping. *)
 From KG Require Import Prelude C09_Model.
 Open Scope Z_scope.
 
@@ -131,11 +139,27 @@ Definition rlim_is (o : obs) (l : lim) : bool :=
 Definition rcfg_det (o : obs) : detail :=
   match r_cfg (rem_of o) with Some it => idet it | None => DNone end.
 
-(* global-count error reply on an available wrapper: fall back to max(observed, local), within the grant *)
-Definition failing_ok (c : config) (maxrt : Z) (prev : obs) (e : ev) (o : obs) : bool :=
-  if o_evp o then true else
+(* the clock of the specification: now (ms), worker rounds so far, and the time (ms) of the last event that
+   delivered a reply for the schema or changed the schema / its quota *)
+Record clk := { k_now : Z; k_rounds : Z; k_quiet : Z }.
+
+Definition has_counter_obs (o : obs) : bool := inner_is o WMI || inner_is o WTB.
+Definition is_omit (sv : sreply) : bool := match sv with SvOmit => true | _ => false end.
+Definition worker_rt (k : clk) : Z := k_now k * 1000000 + k_rounds k + 1.
+
+(* the reply (and its request time) that an event delivers to the global-count limiter, if any *)
+Definition as_reply (k : clk) (e : ev) (o : obs) : option (reply * Z) :=
   match e with
-  | ECount (RErr mx rate) rt =>
+  | ECount r rt => Some (r, rt)
+  | EWorker _ sv mx rate =>
+      if o_sent o && negb (is_omit sv) then Some (reply_of sv mx rate, worker_rt k) else None
+  | EWatchdog mx rate =>
+      if 4 <? k_now k / 1000 - k_quiet k / 1000 then Some (RErr mx rate, 0) else None   (* silence: a timeout *)
+  | _ => None
+  end.
+
+(* global-count error reply on an available wrapper: fall back to max(observed, local), within the grant *)
+Definition failing_body (c : config) (maxrt : Z) (prev : obs) (mx rate rt : Z) (o : obs) : bool :=
       if negb (r_unavail (rem_of prev)) then
         if inner_is prev WMI && fresh maxrt rt then
           match rcfg_det prev with
@@ -148,21 +172,16 @@ Definition failing_ok (c : config) (maxrt : Z) (prev : obs) (e : ev) (o : obs) :
           | _ => false
           end
         else true
-      else true
+      else true.
+
+Definition failing_ok (c : config) (maxrt : Z) (k : clk) (prev : obs) (e : ev) (o : obs) : bool :=
+  if o_evp o then true else
+  match as_reply k e o with
+  | Some (RErr mx rate, rt) => failing_body c maxrt prev mx rate rt o
   | _ => true
   end.
 
-Definition recovery_ok (p : bool) (c : config) (str : strategy) (maxrt : Z) (prev : obs) (e : ev) (o : obs) : bool :=
-  if o_evp o then true else
-  match e with
-  | EQuota it =>
-      if p && global_strategy str && negb (strategy_eqb (istr it) SCount) then
-        match granted c (idet it) with
-        | Some l => inner_is o WEmpty && rlim_is o l
-        | None => true
-        end
-      else true
-  | ECount (ROk true limit) rt =>
+Definition recovery_body (maxrt : Z) (prev : obs) (limit rt : Z) (o : obs) : bool :=
       if inner_is prev WMI && fresh maxrt rt then
         match rcfg_det prev with
         | DMI m => negb (r_unavail (rem_of o)) && negb (r_over (rem_of o))
@@ -174,8 +193,20 @@ Definition recovery_ok (p : bool) (c : config) (str : strategy) (maxrt : Z) (pre
         | DTB q b => negb (r_unavail (rem_of o)) && rlim_is o (LTB q b)
         | _ => false
         end
+      else true.
+
+Definition recovery_ok (p : bool) (c : config) (str : strategy) (maxrt : Z) (k : clk) (prev : obs) (e : ev) (o : obs) : bool :=
+  if o_evp o then true else
+  match e, as_reply k e o with
+  | EQuota it, _ =>
+      if p && global_strategy str && negb (strategy_eqb (istr it) SCount) then
+        match granted c (idet it) with
+        | Some l => inner_is o WEmpty && rlim_is o l
+        | None => true
+        end
       else true
-  | _ => true
+  | _, Some (ROk true limit, rt) => recovery_body maxrt prev limit rt o
+  | _, _ => true
   end.
 
 (* clause layout: bound, fallback, inforce, failing, recovery, nopanic *)
@@ -186,12 +217,12 @@ Definition obs_ok (st : static) (c : config) (str : strategy) (o : obs) : list b
   [bound_ok c o; fallback_ok st c str o; inforce_ok st str o; true; true; nopanic_ok o].
 
 (* p, c, str: presence, configuration and strategy before the event; p', c', str': after it *)
-Definition step_ok (st : static) (p p' : bool) (c c' : config) (str str' : strategy) (maxrt : Z)
+Definition step_ok (st : static) (p p' : bool) (c c' : config) (str str' : strategy) (maxrt : Z) (k : clk)
                    (prev : obs) (e : ev) (o : obs) : list bool :=
   [if p' then bound_ok c' o else absent_ok o;
    if p' then fallback_ok st c' str' o else true;
    if p' then inforce_ok st str' o else true;
-   failing_ok c maxrt prev e o; recovery_ok p c str maxrt prev e o; nopanic_ok o].
+   failing_ok c maxrt k prev e o; recovery_ok p c str maxrt k prev e o; nopanic_ok o].
 
 Definition and_lists (a b : list bool) : list bool := map (fun p => (fst p && snd p)%bool) (combine a b).
 Definition all_true : list bool := [true; true; true; true; true; true].
@@ -200,19 +231,37 @@ Definition next_str (str : strategy) (e : ev) : strategy :=
   match e with EStrategy x | ESchema _ x _ _ _ _ => x | _ => str end.
 Definition next_present (p : bool) (e : ev) : bool :=
   match e with EStrategy _ | ESchema _ _ _ _ _ _ => true | EDelete => false | _ => p end.
-Definition next_rt (maxrt : Z) (e : ev) : Z := match e with ECount _ rt => zmax maxrt rt | _ => maxrt end.
+Definition next_rt (maxrt : Z) (k : clk) (e : ev) : Z :=
+  match e with
+  | ECount _ rt => zmax maxrt rt
+  | EWorker _ _ _ _ => zmax maxrt (worker_rt k)
+  | _ => maxrt
+  end.
+(* events after which the silence starts anew: the schema or its quota changed, a counter appeared, or a
+   reply for the schema was delivered *)
+Definition noisy (prev : obs) (e : ev) (o : obs) : bool :=
+  match e with
+  | EQuota _ | EStrategy _ | ESchema _ _ _ _ _ _ | EDelete | EEnable => true
+  | EWorker _ sv _ _ => o_sent o && negb (is_omit sv)
+  | _ => false
+  end || (negb (has_counter_obs prev) && has_counter_obs o).
+Definition next_clk (k : clk) (prev : obs) (e : ev) (o : obs) : clk :=
+  {| k_now := match e with EElapse ms => k_now k + (if ms <? 0 then 0 else ms) | _ => k_now k end;
+     k_rounds := match e with EWorker _ _ _ _ => k_rounds k + 1 | _ => k_rounds k end;
+     k_quiet := if noisy prev e o then k_now k else k_quiet k |}.
 Definition next_cfg (c : config) (e : ev) : config :=
   match e with ESchema k _ a b g h => {| ck := k; l1 := a; l2 := b; g1 := g; g2 := h |} | _ => c end.
 
-Fixpoint hist_ok (st : static) (p : bool) (c : config) (str : strategy) (maxrt : Z) (prev : obs) (tr : list (ev * obs))
-  : list bool :=
+Fixpoint hist_ok (st : static) (p : bool) (c : config) (str : strategy) (maxrt : Z) (k : clk) (prev : obs)
+                 (tr : list (ev * obs)) : list bool :=
   match tr with
   | [] => all_true
   | (e, o) :: r =>
-      and_lists (step_ok st p (next_present p e) c (next_cfg c e) str (next_str str e) maxrt prev e o)
-                (hist_ok st (next_present p e) (next_cfg c e) (next_str str e) (next_rt maxrt e) o r)
+      and_lists (step_ok st p (next_present p e) c (next_cfg c e) str (next_str str e) maxrt k prev e o)
+                (hist_ok st (next_present p e) (next_cfg c e) (next_str str e) (next_rt maxrt k e)
+                         (next_clk k prev e o) o r)
   end.
 
 (* a whole recorded case: the observation right after the schema was created, then the trace *)
 Definition case_ok (st : static) (str0 : strategy) (o0 : obs) (tr : list (ev * obs)) : list bool :=
-  and_lists (obs_ok st (cfg st) str0 o0) (hist_ok st true (cfg st) str0 0 o0 tr).
+  and_lists (obs_ok st (cfg st) str0 o0) (hist_ok st true (cfg st) str0 0 {| k_now := 0; k_rounds := 0; k_quiet := 0 |} o0 tr).
